@@ -320,10 +320,11 @@ def run_parallel(binary, lines, wait_ms, nproc=8):
         res = list(ex.map(lambda ch: vlib.harness(binary, 'channel', ch, args=[str(wait_ms)], timeout=1500), chunks))
     out = [None] * len(lines)
     for j, r in enumerate(res):
-        if len(r) != len(chunks[j]):
+        # a harness process stops after reporting a deadlocked sender (HUNG); the lines it did not answer are SKIPPED
+        if len(r) != len(chunks[j]) and not (r and r[-1].endswith('HUNG')):
             raise vlib.BrokenTie('channel harness answered %d of %d lines' % (len(r), len(chunks[j])))
-        for i, a in enumerate(r):
-            out[j + i * k] = a
+        for i in range(len(chunks[j])):
+            out[j + i * k] = r[i] if i < len(r) else 'SKIPPED'
     return out
 
 
@@ -357,13 +358,23 @@ def run_channel(run, binary, jbin, tier, extra_scenarios=()):
     model = W.judge(jbin, lines)
     impl = run_parallel(binary, lines, 5)
     # a short observation window can only err towards "blocked": re-run disagreeing schedules with a long one
-    redo = [i for i, (sc, il, ml) in enumerate(zip(scen, impl, model)) if il != ml or single_oracle(sc[0], sc[1], il)]
+    hung = [i for i, il in enumerate(impl) if il.endswith('HUNG')]
+    redo = [i for i, (sc, il, ml) in enumerate(zip(scen, impl, model))
+            if il != 'SKIPPED' and not il.endswith('HUNG') and (il != ml or single_oracle(sc[0], sc[1], il))]
     run.count('channel:rerun-with-long-window', len(redo))
-    if redo:
-        again = vlib.harness(binary, 'channel', [lines[i] for i in redo], args=['600'], timeout=1500)
-        for i, a in zip(redo, again):
-            impl[i] = a
+    if redo and not hung:
+        for i in redo[:200]:
+            again = vlib.harness(binary, 'channel', [lines[i]], args=['600'], timeout=600)
+            impl[i] = again[0] if again else 'SKIPPED'
     for (cap, ops, kind), line, il, ml in zip(scen, lines, impl, model):
+        if il == 'SKIPPED':
+            run.count('channel:skipped-after-a-hang')
+            continue
+        if il.endswith('HUNG'):
+            run.case(line, True)
+            run.fail('C14 channel: a blocked sender never got through although the receiver drained the channel (deadlock)',
+                     {'driver': 'channel', 'schedule': line, 'impl': il})
+            continue
         run.count('channel:' + kind)
         run.count('channel-cap:%s' % (cap if cap < 200 else '>=200'))
         if 'blocked' in il:
@@ -395,19 +406,28 @@ def run_two_threads(run, binary, tier):
         run.count('channel:two-threads-messages', k)
         run.case(line, True, sample={'two-threads': line, 'impl': il[:120]})
         run.traces_validated += 1
-        f = dict(x.split('=', 1) for x in il.split(' ')[1:])
-        want = ','.join('%d:%d' % (i + 1, sizes[i % len(sizes)]) for i in range(k))
-        got = f.get('recv', '')
-        if got != want:
-            gl, wl = got.split(','), want.split(',')
-            pos = next((i for i, (a, b) in enumerate(zip(gl, wl)) if a != b), min(len(gl), len(wl)))
-            run.fail('C14 channel: two-thread run delivered %d of %d messages, first difference at position %d (exactly once, in order, intact)'
-                     % (len(gl), len(wl), pos), {'driver': 'channel', 'schedule': line, 'impl': il[:300]})
-        elif f.get('final') != '0' or f.get('extra') != '0':
-            run.fail('C14 channel: drained channel accounts %s bytes (extra message: %s)' % (f.get('final'), f.get('extra')),
-                     {'driver': 'channel', 'schedule': line, 'impl': il[:300]})
-        elif int(f.get('max', '0')) > cap + 2 * max(sizes):
-            run.broke('correspondence', 'channel-bounded', 'counter sampled at %s exceeds capacity + two messages (theorem C14_bounded): %s' % (f.get('max'), line))
+        two_thread_verdict(run, cap, k, sizes, line, il)
+
+
+def two_thread_verdict(run, cap, k, sizes, line, il):
+    if il == 'SKIPPED':
+        return
+    if il.endswith('HUNG'):
+        run.fail('C14 channel: two-thread run deadlocked', {'driver': 'channel', 'schedule': line, 'impl': il})
+        return
+    f = dict(x.split('=', 1) for x in il.split(' ')[1:])
+    want = ','.join('%d:%d' % (i + 1, sizes[i % len(sizes)]) for i in range(k))
+    got = f.get('recv', '')
+    if got != want:
+        gl, wl = got.split(','), want.split(',')
+        pos = next((i for i, (a, b) in enumerate(zip(gl, wl)) if a != b), min(len(gl), len(wl)))
+        run.fail('C14 channel: two-thread run delivered %d of %d messages, first difference at position %d (exactly once, in order, intact)'
+                 % (len(gl), len(wl), pos), {'driver': 'channel', 'schedule': line, 'impl': il[:300]})
+    elif f.get('final') != '0' or f.get('extra') != '0':
+        run.fail('C14 channel: drained channel accounts %s bytes (extra message: %s)' % (f.get('final'), f.get('extra')),
+                 {'driver': 'channel', 'schedule': line, 'impl': il[:300]})
+    elif int(f.get('max', '0')) > cap + 2 * max(sizes):
+        run.broke('correspondence', 'channel-bounded', 'counter sampled at %s exceeds capacity + two messages (theorem C14_bounded): %s' % (f.get('max'), line))
 
 
 # ------------------------------------------------------------------------------------------------
@@ -458,6 +478,55 @@ def check(run):
 
 
 def replay(run, path):
+    """Re-run exactly the recorded case (a codec request or a channel schedule) on the implementation and the model."""
     r = json.load(open(path))
     print(json.dumps(r, indent=1)[:4000])
-    return check(run)
+    if r.get('driver') not in ('bincode', 'channel'):
+        return check(run)
+    run.trusted = list(vlib.COMMON_TRUSTED)
+    run.extra['rule'] = 'replay of one recorded case'
+    binary = vlib.build_impl()
+    vlib.regen_facts(binary)
+    run.check_proofs('C14', THEOREMS, extra_targets=['theories/Extract/Ex_wire.vo'])
+    jbin = vlib.build_judge('wire')
+    if r['driver'] == 'bincode':
+        line = r['request']
+        il = vlib.harness(binary, 'bincode', [line])[0]
+        ml = W.judge(jbin, [line])[0]
+        print('impl : ' + il[:400]); print('model: ' + ml[:400])
+        run.case(line, True, sample={'request': line[:200], 'impl': il[:200], 'model': ml[:200]})
+        run.traces_validated += 1
+        bad = None
+        if line.startswith('E '):
+            pl = None
+            toks = line.split()
+            for t in toks:
+                if ':' in t and toks[2] in ('CreateOrUpdateFile', 'FileContent') and t.split(':')[0].isdigit() and pl is None:
+                    pl = tuple(int(x) for x in t.split(':'))
+            pre = any(t.startswith('-') and ':' in t for t in toks)
+            bad = bincode_oracle({'pre': pre, 'payload': pl}, il)
+        if bad:
+            run.fail('C14 codec: ' + bad, {'driver': 'bincode', 'request': line, 'impl': il[:400]})
+        elif il != ml:
+            run.broke('correspondence', 'bincode-replay', json.dumps({'request': line[:300], 'impl': il[:600], 'model': ml[:600]}))
+    else:
+        line = r['schedule']
+        toks = line.split()
+        il = vlib.harness(binary, 'channel', [line], args=['600'], timeout=900)
+        il = il[0] if il else 'SKIPPED'
+        print('impl : ' + il[:400])
+        run.case(line, True, sample={'schedule': line[:200], 'impl': il[:200]})
+        run.traces_validated += 1
+        if toks[0] == 'S':
+            ml = W.judge(jbin, [line])[0]
+            print('model: ' + ml[:400])
+            cap, ops = int(toks[1]), toks[2:]
+            bad = 'a blocked sender never got through although the receiver drained the channel (deadlock)' if il.endswith('HUNG') else single_oracle(cap, ops, il)
+            if bad:
+                run.fail('C14 channel: ' + bad, {'driver': 'channel', 'schedule': line, 'impl': il})
+            elif il != ml:
+                run.broke('correspondence', 'channel-replay', json.dumps({'schedule': line[:600], 'impl': il[:600], 'model': ml[:600]}))
+        else:
+            cap, seed, k, sizes = int(toks[1]), int(toks[2]), int(toks[3]), [int(x) for x in toks[4:]]
+            two_thread_verdict(run, cap, k, sizes, line, il)
+    return run.finish(search=None)
